@@ -15,6 +15,7 @@ corpus cases of the correspondence run.
 -/
 import GrcovModel.Lemmas.LcovFunctions
 import GrcovModel.Lemmas.LcovWriter
+import GrcovModel.Lemmas.LcovUtf8
 namespace Grcov.Props.C04
 open Grcov AList Grcov.Lcov Grcov.Lcov.Spec
 
@@ -213,6 +214,88 @@ theorem C04_sem_da_is_sum (rs : List (Nat × Nat)) (l : Nat) (h : ∃ r ∈ rs, 
     get? (daFold {} rs).cur.lines l
       = some (min (((rs.filter fun r => decide (r.1 = l)).map (·.2)).sum) U64MAX) :=
   C04_da_sum rs l h
+
+/-! ### names -/
+
+/-- Names are decoded by `String::from_utf8_lossy` (`utf8Lossy`): a name that is well-formed UTF-8
+(`validUtf8`: the RFC 3629 grammar, executable) is returned byte for byte – commas, spaces,
+non-ASCII text included. -/
+theorem C04_names_valid_utf8_unchanged (bs : Bytes) (h : validUtf8 bs = true) : utf8Lossy bs = bs :=
+  utf8Lossy_of_valid bs h
+
+/-- in particular every ASCII name -/
+theorem C04_names_ascii_unchanged (bs : Bytes) (h : ∀ b ∈ bs, b < 128) : utf8Lossy bs = bs :=
+  utf8Lossy_of_valid bs (validUtf8_ascii bs h)
+
+/-- Whatever the bytes of a name, the decoded name is well-formed UTF-8 and decoding it again
+changes nothing. -/
+theorem C04_names_decoding_idempotent (bs : Bytes) :
+    validUtf8 (utf8Lossy bs) = true ∧ utf8Lossy (utf8Lossy bs) = utf8Lossy bs :=
+  ⟨validUtf8_utf8Lossy bs, utf8Lossy_idem bs⟩
+
+/-- **Names are preserved byte for byte.** For every well-formed tracefile whose file and function
+names are well-formed UTF-8 (any text: commas, blanks, non-ASCII), the reported file names ARE the
+written `SF` names and the reported function names ARE the written `FN` names, in file order. -/
+theorem C04_names_preserved (branch : Bool) (eol : Bytes) (heol : eol = [LF] ∨ eol = [CR, LF])
+    (secs : List Section) (hs : ∀ s ∈ secs, s.WellFormed)
+    (hv : ∀ s ∈ secs, validUtf8 s.sf = true ∧
+      ∀ st name, Rec.fn st name ∈ s.recs → validUtf8 name = true) :
+    parse branch (render eol secs) = .ok (secs.map fun s => (s.sf, sem branch s))
+      ∧ ∀ s ∈ secs, keys (sem branch s).functions = fnWrittenNames s.recs := by
+  refine ⟨?_, fun s hsm => ?_⟩
+  · rw [C04_fidelity branch eol heol secs hs]
+    congr 1
+    apply List.map_congr_left
+    intro s hsm
+    rw [utf8Lossy_of_valid _ (hv s hsm).1]
+  · have : keys (sem branch s).functions = fnNames s.recs := keys_fnTable _ _
+    rw [this]
+    exact fnNames_eq_written s.recs fun st name hm => utf8Lossy_of_valid _ ((hv s hsm).2 st name hm)
+
+/-- non-vacuity: `a,b é日本😀 x` is well-formed UTF-8; a lone 0xFF or a surrogate is not and is
+replaced by U+FFFD -/
+example : validUtf8 [97, 44, 98, 32, 0xC3, 0xA9, 0xE6, 0x97, 0xA5, 0xE6, 0x9C, 0xAC, 0xF0, 0x9F, 0x98, 0x80, 32, 120] = true := by
+  decide
+example : utf8Lossy [102, 0xFF, 103] = [102, 0xEF, 0xBF, 0xBD, 103] ∧ validUtf8 [0xED, 0xA0, 0x80] = false := by
+  decide
+
+/-! ### lcov 2.x function records -/
+
+/-- `FN:<start>,<end>,<name>` (what lcov 2.x writes) is read as an FN record whose function name is
+`<end>,<name>`: the end line is not recognised, it becomes part of the name. -/
+theorem C04_fn_end_line_read_as_name (branch : Bool) (a : Acc) (start endLine : Digits) (name eol : Bytes)
+    (hs : start.WF U32MAX) (he : endLine.WF U32MAX) (hn : noEol name) (heol : eol = [LF] ∨ eol = [CR, LF]) :
+    renderRec eol (fnWithEndLine start endLine name)
+        = [70, 78, 58] ++ start.bytes ++ [44] ++ endLine.bytes ++ [44] ++ name ++ eol
+      ∧ run branch ⟨.dispatch, a⟩ (renderRec eol (fnWithEndLine start endLine name))
+        = ⟨.dispatch, commitFn a start.val (endLine.bytes ++ 44 :: name)⟩ := by
+  refine ⟨by simp [renderRec, fnWithEndLine], ?_⟩
+  have hne : noEol (endLine.bytes ++ 44 :: name) := by
+    intro x hx
+    simp only [List.mem_append, List.mem_cons] at hx
+    rcases hx with hx | hx | hx
+    · have := digits_noLF endLine _ he x hx
+      refine ⟨this, ?_⟩
+      simp only [Digits.bytes, List.mem_cons] at hx
+      rcases hx with hx | hx
+      · subst hx; have := isDigit_le _ he.1; simp [CR]; omega
+      · have := isDigit_le _ (he.2.1 x hx); simp [CR]; omega
+    · subst hx; simp [LF, CR]
+    · exact hn x hx
+  exact fn_record_bytes branch a start _ eol hs hne heol
+
+/-- Consequence for a tracefile written by lcov 2.x (finding candidate C04-lcov2-fn-end-line):
+`SF:a.c⏎FN:1,5,f⏎FNDA:1,f⏎DA:1,1⏎end_of_record⏎` declares the function `5,f`, the FNDA for `f` then
+finds no FN and the WHOLE tracefile is rejected ("FN record missing"); without FNDA records the
+file is accepted with the function reported under the name `5,f`. -/
+theorem C04_lcov2_fn_record_witness :
+    parse true [83, 70, 58, 97, 46, 99, 10, 70, 78, 58, 49, 44, 53, 44, 102, 10, 70, 78, 68, 65, 58, 49, 44, 102, 10,
+                68, 65, 58, 49, 44, 49, 10, 101, 110, 100, 95, 111, 102, 95, 114, 101, 99, 111, 114, 100, 10]
+      = .err "Parse"
+    ∧ parse true [83, 70, 58, 97, 46, 99, 10, 70, 78, 58, 49, 44, 53, 44, 102, 10,
+                68, 65, 58, 49, 44, 49, 10, 101, 110, 100, 95, 111, 102, 95, 114, 101, 99, 111, 114, 100, 10]
+      = .ok [([97, 46, 99], { lines := [(1, 1)], branches := [], functions := [([53, 44, 102], ⟨1, false⟩)] })] := by
+  decide +kernel
 
 /-! ### branch parsing disabled -/
 
